@@ -330,6 +330,16 @@ def run(F, R, tier):
                 "running-mass routine is also called from %s" % sorted(cs - {"gm2calc::THDM::" + nm}), key="R4|%s|callers" % routine)
 
     # ---- R5 Lambda_QCD fallback ------------------------------------------------------------------
+    # ---- R6: the running-mass routines keep no state ------------------------------------------------------------
+    R.rule("R6", "the running-mass / Lambda_QCD routines (gm2_mf.cpp) and the SM class keep no writable static storage: the "
+                 "result is a function of the arguments only, so that running Q1 -> Q2 -> Q3 composes and repeated calls agree", 1)
+    stat = [g for g in F.globals.values() if g["file"] in ("src/gm2_mf.cpp", "src/gm2_mf.hpp", "src/SM/SM.cpp")]
+    bad = [g for g in stat if not (g["const"] or g["constexpr"] or re.match(r"^const ", g["t"] or ""))]
+    R.check("R6", not bad, "%d static-storage variables in gm2_mf.cpp / SM.cpp, all const" % len(stat), "src/gm2_mf.cpp",
+            "writable static storage in the running-mass code: %s" % ", ".join(
+                "%s (%s:%s%s)" % (g["name"], g["file"], g["line"], ", static local of %s" % g.get("infunc") if g.get("staticlocal") else "")
+                for g in bad[:3]), key="R6|statics")
+
     R.rule("R5", "calculate_lambda_qcd: a failing root search is caught (handler covers every exception the try "
                  "body may raise), warned about, and the default value is kept", 3)
     f = F.fn(AN + "calculate_lambda_qcd")
